@@ -4,6 +4,7 @@ R1  every read through the cursor in WOPN_LoadBankFromMem / WOPN_LoadInstFromMem
 R2  every failing return of the bank loader frees the partially built file and stores a non-zero error code; the instrument
     loader returns only defined error codes.
 R3  instrument-derived indices used at note-on are masked into range.
+R5  every table read of the chip layer (opnmidi_opn2.cpp) is in range for all instrument / controller values (interval engine E2).
 R4  the frequency (octave) search of OPN2::noteOn terminates: a loop whose only progress is halving a floating value is
     entered only with a finite upper bound on that value or carries an integer counter bound in its condition.
 """
@@ -20,6 +21,7 @@ RULES = [
     Rule('C02.R2', 'failing returns free the partial file and report a defined, non-zero error code', 8),
     Rule('C02.R3', 'instrument-derived table indices in the synth are masked into range', 3),
     Rule('C02.R4', 'halving loops of the frequency search have a bounded trip count', 2),
+    Rule('C02.R5', 'table reads of the chip layer at note-on / note-update are in range for every instrument and controller value', 10),
 ]
 EXPLANATION = ('Byte-budget abstract interpretation (E1) of the structured bodies of the two loaders in the (cursor, length) dialect with the '
                'file-derived `version` case-split; CFG dominance for the error-return discipline; a forward must-dataflow ("value has a finite upper '
@@ -42,6 +44,15 @@ def analyse(facts, tier):
     obls += r2(facts)
     obls += r3(facts)
     obls += r4(facts)
+    # R5: the interval engine's index obligations inside the chip layer (instrument fields range over their whole type there:
+    # structs of the public WOPN header are never narrowed), so a clamp that an instrument byte can defeat shows up here
+    from .. import e2prog
+    from . import c03
+    res = e2prog.analyse_program(facts)
+    o5 = c03.index_obligations(facts, res, 'C02.R5', 'C02.R5', lambda f: f == 'src/opnmidi_opn2.cpp')
+    if len(o5) < 10:
+        raise build.AnalysisBroken('C02.R5: only %d index obligations in the chip layer' % len(o5))
+    obls += o5
     return obls
 
 
